@@ -13,7 +13,11 @@ From Coq Require Import List Arith ZArith Bool.
 Import ListNotations.
 
 (** behaviour of the function handed to [run] (after its script) *)
-Inductive fn := FRet (v : Z) | FRaise | FDefer.
+(** [FDefer]: returns an unfired Deferred that fires later.  [FChain]: returns a Deferred that has ALREADY fired
+    ([called] is true) but whose callback chain is suspended on a pending inner Deferred, so that its result only
+    becomes available later ([succeed(x).addCallback(lambda _: inner)]).  "Result available" always means: the
+    returned Deferred's chain delivers a result to the callback run() added ([EFnDone]), never merely "fired". *)
+Inductive fn := FRet (v : Z) | FRaise | FDefer | FChain.
 
 (** simple operations (usable at top level and inside scripts) *)
 Inductive sop :=
@@ -157,6 +161,7 @@ Definition step (s : st) (it : item) : st * list item :=
   | IEndF j (FRet v) => fn_done HRunning j (OK v) s
   | IEndF j FRaise => fn_done HRunning j Boom s
   | IEndF j FDefer => (set_pending (j :: pending s) (set_running (remove_first j (running s)) s), [])
+  | IEndF j FChain => (set_pending (j :: pending s) (set_running (remove_first j (running s)) s), [])
   | IResult j r => (emit (EResult j r) s, [])
   end.
 
